@@ -5,6 +5,8 @@
 //!                k = 1: also of its call count); b = 0 is NodeData::new(node, vec![]), a meter-style node
 //!       `E a b`  add an edge a -> b        `R a`  remove node a (StableGraph only)
 //!       `P o`    Processor::process(graph, o) on the ONE processor of the case
+//!       `A a`    arm the node in slot a: its next invocation panics inside Node::process (once, after logging);
+//!                the unwinding out of Processor::process is caught and the SAME processor is used on
 //!       `B`      snapshot of every slot's buffer value and call count     `Q`  sources() and sinks()
 //! Output: observations joined by ';':
 //!   `1 idx` (N)  `2` (E)  `3 0|1` (R: None|Some)
@@ -13,6 +15,7 @@
 //!        sentinel found in its first buffer (-1 when it has none), seen_i = sum of the values in its buffers)
 //!   `12 v...` `13 c...` `16 n...` (B: per slot value (-2 = node without buffers), call count, buffer count;
 //!        -1 = vacant)   `14 ids...` `15 ids...` (Q)
+//!   `17 who` after the log of a P: the armed node `who` panicked, the call was aborted there   `18` (A)
 //!   `8 code` a panic (3 = FixedBitSet assertion, 4 = expect(no node), 2 = add_edge on a missing node, 9 other);
 //!        the case ends at the first panic.
 //! Instrumented node: every buffer j of the node: buffer[j][0] = value, buffer[j][1] = identity (slot index).
@@ -30,6 +33,7 @@ struct Inst {
     id: Rc<Cell<i64>>,
     kind: i64,
     count: Rc<Cell<i64>>,
+    armed: Rc<Cell<bool>>,
     log: Log,
 }
 
@@ -45,6 +49,15 @@ impl Node for Inst {
             from.push(if b.is_empty() { -1 } else { b[0][1] as i64 });
             seen.push(b.iter().map(|x| x[0] as i64).sum::<i64>());
         }
+        let mut rec = vec![id, from.len() as i64];
+        rec.extend_from_slice(&lens);
+        rec.extend_from_slice(&from);
+        rec.extend_from_slice(&seen);
+        self.log.borrow_mut().push(rec);
+        if self.armed.get() {
+            self.armed.set(false);
+            panic!("armed node panic {}", id);
+        }
         let mut acc = (id + 1) * 7 + 1000 * self.kind * self.count.get();
         for (i, v) in seen.iter().enumerate() {
             acc += 3 * (i as i64 + 1) * v;
@@ -55,11 +68,6 @@ impl Node for Inst {
             out[1] = id as f32;
         }
         self.count.set(self.count.get() + 1);
-        let mut rec = vec![id, from.len() as i64];
-        rec.extend_from_slice(&lens);
-        rec.extend_from_slice(&from);
-        rec.extend_from_slice(&seen);
-        self.log.borrow_mut().push(rec);
     }
 }
 
@@ -72,7 +80,9 @@ fn my_catch<T>(f: impl FnOnce() -> T) -> Result<T, i64> {
         } else {
             String::new()
         };
-        if msg.contains("bit < self.length") {
+        if msg.contains("armed node panic") {
+            7
+        } else if msg.contains("bit < self.length") {
             3
         } else if msg.contains("no node exists") {
             4
@@ -91,7 +101,7 @@ macro_rules! run_case {
         let mut p: Processor<$gty> = Processor::with_capacity(4);
         let log: Log = Rc::new(RefCell::new(Vec::new()));
         // per slot handles (id, count); slots never disappear
-        let mut handles: Vec<(Rc<Cell<i64>>, Rc<Cell<i64>>)> = Vec::new();
+        let mut handles: Vec<(Rc<Cell<i64>>, Rc<Cell<i64>>, Rc<Cell<bool>>)> = Vec::new();
         let mut out: Vec<String> = Vec::new();
         for op in ops {
             let a: Vec<i64> = op[1..].iter().map(|t| t.parse().unwrap()).collect();
@@ -99,7 +109,8 @@ macro_rules! run_case {
                 "N" => {
                     let id = Rc::new(Cell::new(-1));
                     let count = Rc::new(Cell::new(0));
-                    let inst = Inst { id: id.clone(), kind: a[0], count: count.clone(), log: log.clone() };
+                    let armed = Rc::new(Cell::new(false));
+                    let inst = Inst { id: id.clone(), kind: a[0], count: count.clone(), armed: armed.clone(), log: log.clone() };
                     let idx = g.add_node(NodeData::boxed(inst, vec![Buffer::SILENT; a[1] as usize]));
                     let i = idx.index();
                     id.set(i as i64);
@@ -111,10 +122,10 @@ macro_rules! run_case {
                         }
                     }
                     if i < handles.len() {
-                        handles[i] = (id, count);
+                        handles[i] = (id, count, armed);
                     } else {
                         assert_eq!(i, handles.len());
-                        handles.push((id, count));
+                        handles.push((id, count, armed));
                     }
                     out.push(obs(1, &[i as i64]));
                 }
@@ -143,6 +154,15 @@ macro_rules! run_case {
                                 out.push(obs(11, rec));
                             }
                         }
+                        Err(7) => {
+                            // a node panicked: the host caught it and keeps using graph and processor
+                            let l = log.borrow();
+                            out.push(obs(10, &[l.len() as i64]));
+                            for rec in l.iter() {
+                                out.push(obs(11, rec));
+                            }
+                            out.push(obs(17, &[l.last().map(|r| r[0]).unwrap_or(-1)]));
+                        }
                         Err(c) => {
                             // nothing may have been invoked before the panic
                             let n = log.borrow().len() as i64;
@@ -154,6 +174,14 @@ macro_rules! run_case {
                             break;
                         }
                     }
+                }
+                "A" => {
+                    // only a node that is in the graph can be armed
+                    let i = a[0] as usize;
+                    if i < handles.len() && g.node_weight(NodeIndex::new(i)).is_some() {
+                        handles[i].2.set(true);
+                    }
+                    out.push(obs(18, &[]));
                 }
                 "B" => {
                     let mut vals = Vec::new();
